@@ -186,17 +186,23 @@ Proof.
   - lia.
 Qed.
 
+Lemma list_sum_cons x l : list_sum (x :: l) = (x + list_sum l)%nat.
+Proof. reflexivity. Qed.
+
 Lemma inflight_chan_set g a b q T c :
   (inflight (chan_set a b q g) T c + (if N.eqb b c then cnt (is_rv T) (chan_get a b g) else 0)
    <= inflight g T c + (if N.eqb b c then cnt (is_rv T) q else 0))%nat.
 Proof.
-  unfold inflight, chan_set, chan_get. cbn.
-  pose proof (sum_filter_find T c a b (chan g)) as H. unfold chmatch in H.
-  unfold contrib at 1. cbn.
-  destruct (find _ (chan g)) as [ch|] eqn:F.
-  - apply find_some in F as [_ F]. apply andb_true_iff in F as [_ F]. apply N.eqb_eq in F.
+  unfold inflight.
+  change (chan (chan_set a b q g)) with ((a, b, q) :: filter (fun c0 => negb (chmatch a b c0)) (chan g)).
+  change (chan_get a b g) with (match find (chmatch a b) (chan g) with Some c0 => snd c0 | None => [] end).
+  rewrite map_cons, list_sum_cons.
+  pose proof (sum_filter_find T c a b (chan g)) as H.
+  unfold contrib at 1. cbn [fst snd].
+  destruct (find (chmatch a b) (chan g)) as [ch|] eqn:F.
+  - apply find_some in F as [_ F]. unfold chmatch in F. apply andb_true_iff in F as [_ F]. apply N.eqb_eq in F.
     unfold contrib at 2 in H. rewrite F in H. destruct (b =? c); lia.
-  - destruct (b =? c); cbn; lia.
+  - rewrite cnt_nil. destruct (b =? c); lia.
 Qed.
 
 Lemma inflight_chan_set_le g a b q T c :
@@ -225,8 +231,7 @@ Proof.
   - specialize (IH (chan_set n d (chan_get n d g ++ [m]) g)).
     pose proof (inflight_chan_set g n d (chan_get n d g ++ [m]) T c) as H.
     rewrite cnt_app, cnt_cons, cnt_nil in H.
-    destruct m; simpl in *; destruct (d =? c); simpl in *; try lia.
-    destruct (t =? T); simpl in *; lia.
+    destruct m; simpl in *; destruct (d =? c); simpl in *; lia.
   - specialize (IH (chan_set x n [] g)).
     pose proof (inflight_chan_set_le g x n [] T c). rewrite cnt_nil in H. lia.
 Qed.
@@ -255,5 +260,4 @@ Record Inv (V : list nid) (g : gstate) (gh : ghost) (st : list nid) : Prop := {
 Lemma inv_init V : Inv V ginit gh0 [].
 Proof.
   constructor; simpl; try (intros; contradiction); try discriminate; try constructor.
-  intros T c. unfold counted, inflight, nvotes. simpl. lia.
 Qed.
